@@ -196,7 +196,7 @@ type shapeRun struct {
 }
 
 func startShape(s shape, r *vx.Rand) *shapeRun {
-	w := hub.NewWorld(rec, hub.Options{Seed: r.U64(), Splits: s.layout, Stores: s.stores})
+	w := hub.NewWorld(rec, hub.Options{Full: lean, Seed: r.U64(), Splits: s.layout, Stores: s.stores})
 	sr := &shapeRun{w: w, s: s}
 	w.Note("shape " + s.String())
 	for _, k := range s.keys {
